@@ -137,6 +137,46 @@ Definition det_builtin (name : string) (args : list term) (e : env) (st : sstate
   | "copy_term", [x; y] =>
       let '(c, st') := ss_copy e x st in
       match unify e c y with UOk e' => DOk e' st' | _ => DFail end
+  | "arg", [n; t; a] =>
+      match resolve e t with
+      | Var _ => DErr inst_err
+      | Cmp _ xs =>
+          match resolve e n with
+          | Var _ => DErr inst_err
+          | Int i =>
+              if (i =? 0) || (Z.of_nat (List.length xs) <? i) then DFail
+              else if i <? 0 then DErr (dom_err "not_less_than_zero" (Int i))
+              else match unify e a (nth (Z.to_nat (i - 1)) xs (Atom "")) with UOk e' => DOk e' st | _ => DFail end
+          | r => DErr (type_err "integer" (walk e r))
+          end
+      | _ => DErr (type_err "compound" (walk e t))
+      end
+  | "functor", [t; n; a] =>
+      match resolve e t with
+      | Var v =>
+          match resolve e a with
+          | Var _ => DErr inst_err
+          | Int ar =>
+              if ar <? 0 then DErr (dom_err "not_less_than_zero" (Int ar))
+              else match resolve e n with
+                   | Var _ => DErr inst_err
+                   | Cmp _ _ as c => DErr (type_err "atomic" (walk e c))
+                   | nm =>
+                       if ar =? 0 then match unify e (Var v) nm with UOk e' => DOk e' st | _ => DFail end
+                       else match nm with
+                            | Atom fn =>
+                                let '(fv, st') := ss_fresh_vars (Z.to_nat ar) st in
+                                match unify e (Var v) (Cmp fn (map Var fv)) with UOk e' => DOk e' st' | _ => DFail end
+                            | _ => DErr (type_err "atom" (walk e nm))
+                            end
+                   end
+          | r => DErr (type_err "integer" (walk e r))
+          end
+      | Cmp fn xs =>
+          match unify e (Cmp "" [n; a]) (Cmp "" [Atom fn; Int (Z.of_nat (List.length xs))]) with UOk e' => DOk e' st | _ => DFail end
+      | atomic =>
+          match unify e (Cmp "" [n; a]) (Cmp "" [atomic; Int 0]) with UOk e' => DOk e' st | _ => DFail end
+      end
   | "true", [] => DOk e st
   | "fail", [] => DFail
   | "false", [] => DFail
